@@ -369,6 +369,13 @@ fn form_src(form: &str, n: usize) -> Option<String> {
         ("opidx", 1) => "x := [a, 0]; x[0] f= x[0]; x[0]".into(),
         ("opthrow", 1) => "x := a; try x f= throw 1 catch _ -> 0; x".into(),
         ("opseq", 2) => "x := a; x f= (x; b); x".into(),
+        // every TARGET shape: the value handed to f must be the value AT the written path
+        ("optgt:idx", 2) => "x := [0, a, 7]; x[1] f= b; x[1]".into(),
+        ("optgt:idx2", 2) => "x := [[1, 2, 3], [4, 5, a], [7, 8, 9]]; x[1][2] f= b; x[1][2]".into(),
+        ("optgt:wd", 2) => "d := {1: {2: a, 1: 3}, 2: {1: 77, 2: 5}}; (d[1][2] = 55) f= b; d[1][2]".into(),
+        ("optgt:wdinit", 2) => "d := {1: {1: 3}, 2: {1: 77}}; (d[1][2] = a) f= b; d[1][2]".into(),
+        ("optgt:wd1", 2) => "d := {1: a, 2: 77}; (d[1] = 55) f= b; d[1]".into(),
+        ("optgt:field", 2) => "s := Pt(0, a); s[py] f= b; s[py]".into(),
         ("splatAll", _) => format!("f(...[{}])", args),
         ("splatTail", _) if n >= 1 => format!("f(a, ...[{}])", names[1..n].join(", ")),
         ("dot", 1) => "a.f".into(),
@@ -392,6 +399,7 @@ fn model_form(form: &str) -> &str {
     match form {
         "dotgt" | "then" => "dot",
         "opidx" => "opself",
+        f if f.starts_with("optgt:") => "opassign",
         f => f,
     }
 }
@@ -405,6 +413,7 @@ fn forms_for(n: usize) -> Vec<&'static str> {
         2 => vec![
             "call", "bang", "infix", "backtick", "sec0", "sec1", "secall", "chainR", "chainL", "chainBoth", "apply", "of",
             "juxt", "rsec", "opassign", "opseq", "splatAll", "splatTail",
+            "optgt:idx", "optgt:idx2", "optgt:wd", "optgt:wdinit", "optgt:wd1", "optgt:field",
             // `_` / `..._` combined with `...[…]` spreads in every relative order
             "mix:H-S1", "mix:S1-H", "mix:L1-H-S0", "mix:H-S0-L1", "mix:S0-H-L1", "mix:U1-L1", "mix:L1-U1", "mix:U2",
             "mix:H-U1", "mix:S0-H-H", "lmix:H-S1", "lmix:S1-H", "lmix:U1-L1", "lmix:H-S0-L1",
@@ -1441,6 +1450,73 @@ fn run_tuple(
     }
 }
 
+/// Several application forms of ONE user closure (defined in the program, with 0, 1 or 2 captured
+/// locals) applied one after the other in one frame, with an op-assignment in between — evaluated
+/// as written and after the optimiser pass (`optimize_expr`, the CLI's -O, which turns the closure
+/// into an internal lambda and the locals into internal-stack slots).  Every element must be what
+/// the plain call gives on its own.
+fn sequence_sweep(ctx: &Ctx, rep: &mut Report, pool: &[PoolVal], rng: &mut Rng, shard: usize, nshards: usize, thorough: bool) {
+    let preludes: [(&str, &str); 4] = [
+        ("cap0", "f := \\p, q -> [p, q]"),
+        ("cap1", "k := 100; f := \\p, q -> [k, p, q]"),
+        ("cap2", "k := 100; m := \"m\"; f := \\p, q -> [m, p, k, q]"),
+        ("cap1sub", "k := 100; f := \\p, q -> k + p - q"),
+    ];
+    let forms = ["call", "bang", "infix", "backtick", "sec0", "sec1", "secall", "chainR", "chainL", "chainBoth", "apply", "of", "juxt"];
+    let data: Vec<&PoolVal> = pool.iter().filter(|p| p.kind != "func").collect();
+    let per_pair = if thorough { 6 } else { 2 };
+    let mut idx = 0usize;
+    for a in &data {
+        for b in &data {
+            idx += 1;
+            if idx % nshards != shard {
+                continue;
+            }
+            for _ in 0..per_pair {
+                let (pname, prelude) = *rng.pick(&preludes);
+                let f1 = *rng.pick(&forms);
+                let f2 = *rng.pick(&forms);
+                let f3 = *rng.pick(&forms);
+                let srcs: Vec<String> = [f1, f2, f3].iter().map(|f| format!("({})", form_src(f, 2).unwrap())).collect();
+                let binds: Vec<(&str, Obj)> = vec![("a", a.obj.clone()), ("b", b.obj.clone())];
+                // what one plain call gives
+                let single = class(&ctx.eval_with(&binds, &format!("{}; f(a, b)", prelude)));
+                let (program, expected) = if rng.chance(1, 2) {
+                    (format!("{}; [{}, {}, {}]", prelude, srcs[0], srcs[1], srcs[2]), vec![&single; 3])
+                } else {
+                    (
+                        format!("{}; x := a; y := {}; x f= b; [y, {}, x, {}]", prelude, srcs[0], srcs[1], srcs[2]),
+                        vec![&single; 4],
+                    )
+                };
+                let spec = if single.starts_with("ok ") {
+                    format!("ok [{}]", expected.iter().map(|e| &e[3..]).collect::<Vec<_>>().join(","))
+                } else {
+                    single.clone()
+                };
+                let input = format!("seq {} {}+{}+{} | a := {} | b := {}   [{}]", pname, f1, f2, f3, a.src, b.src, program);
+                // as written
+                let plain = class(&ctx.eval_with(&binds, &program));
+                rep.case(&input, spec.starts_with("ok"));
+                rep.arm("sequence (as written)");
+                rep.judge(&format!("seq-plain:{}:{}", pname, f2), &input, &plain, &spec, &spec);
+                // through the optimiser
+                let env = ctx.child(&binds);
+                let optimised = catch_unwind(AssertUnwindSafe(|| parse(&program).ok().flatten().map(noulith::optimize_expr)));
+                match optimised {
+                    Ok(Some(e)) => {
+                        let out = class(&guard(|| evaluate(&env, &e)));
+                        rep.case(&format!("{} (optimised)", input), spec.starts_with("ok"));
+                        rep.arm("sequence (optimised)");
+                        rep.judge(&format!("seq-opt:{}:{}", pname, f2), &format!("{}\noptimised: yes", input), &out, &spec, &spec);
+                    }
+                    _ => rep.arm("sequence: optimiser does not support the program (skipped)"),
+                }
+            }
+        }
+    }
+}
+
 /// `ok [x,y,…]` with the top-level elements sorted by their text
 fn sort_top(class: &str) -> String {
     let body = match class.strip_prefix("ok [").and_then(|r| r.strip_suffix(']')) {
@@ -1597,6 +1673,8 @@ fn shard_main(args: &Args, shard: usize, nshards: usize, progress: &str) {
             }
         }
     }
+    let _ = std::fs::write(progress, "sequences");
+    sequence_sweep(&ctx, &mut rep, &pool, &mut rng, shard, nshards, thorough);
     let _ = std::fs::write(progress, "done");
     rep.write(&args.out);
 }
@@ -1687,6 +1765,28 @@ fn replay(args: &Args, path: &str) {
             None => continue,
         };
         let head = rest.split("   [").next().unwrap_or(rest);
+        if rest.starts_with("seq ") {
+            // a sequence program: re-run it as written and through the optimiser
+            let program = rest.splitn(2, "   [").nth(1).and_then(|p| p.strip_suffix(']')).unwrap_or("");
+            let mut binds: Vec<(&str, Obj)> = vec![];
+            for (name, p) in ["a", "b"].iter().zip(head.split(" | ").skip(1)) {
+                let src = p.splitn(2, ":= ").nth(1).unwrap_or("").trim();
+                if let Some(v) = pool.iter().find(|v| v.src == src) {
+                    binds.push((*name, v.obj.clone()));
+                }
+            }
+            println!("{}", rest);
+            let prelude = program.rsplitn(2, "; ").nth(1).unwrap_or("");
+            let prelude = prelude.split("; x := a").next().unwrap_or(prelude);
+            println!("  one plain call: {}", detail(&ctx.eval_with(&binds, &format!("{}; f(a, b)", prelude))));
+            println!("  as written:     {}", detail(&ctx.eval_with(&binds, program)));
+            let env = ctx.child(&binds);
+            match catch_unwind(AssertUnwindSafe(|| parse(program).ok().flatten().map(noulith::optimize_expr))) {
+                Ok(Some(e)) => println!("  optimised:      {}", detail(&guard(|| evaluate(&env, &e)))),
+                _ => println!("  optimised:      (the optimiser does not support this program)"),
+            }
+            continue;
+        }
         let parts: Vec<&str> = head.split(" | ").collect();
         if parts.len() < 2 {
             println!("cannot replay: {}", rest);
